@@ -34,6 +34,7 @@ Inductive err :=
 | EDirty
 | EDuplicateFact
 | EParse
+| EMissingSymbols     (* a block uses a symbol index that no block has declared *)
 | EOther.
 
 Inductive res (A : Type) :=
@@ -61,7 +62,7 @@ Definition err_eqb (a b : err) : bool :=
   | EDivZero, EDivZero | EOverflow, EOverflow | EIllTyped, EIllTyped | EUnknownVar, EUnknownVar
   | ERegex, ERegex | EMaxFacts, EMaxFacts | EMaxIterations, EMaxIterations
   | EInvalidRule, EInvalidRule | EDirty, EDirty | EDuplicateFact, EDuplicateFact
-  | EParse, EParse | EOther, EOther => true
+  | EParse, EParse | EMissingSymbols, EMissingSymbols | EOther, EOther => true
   | _, _ => false
   end.
 
